@@ -1147,6 +1147,8 @@ def run_impl(case, upto=None, soft_from=None, hang=None, soft_s=3.0):
                 def spy(*a, **kw):
                     f = orig_get_save(*a, **kw)
                     box.append(f)
+                    if callable(f) and len(a) == 2 and not kw:
+                        return identity_checked_save(f, a[0], a[1], findings)
                     return f
                 pystep.get_save = spy
             try:
@@ -1554,6 +1556,248 @@ def run_save_helper(case):
                     {'before': list(before_map), 'after': list(after_map), 'given': sorted(given), 'outcome': out}))
                 break
     return {'ok': True, 'calls': calls}, findings
+
+
+# --------------------------------------------------------------------------
+# M12: save(...) binds THE IDENTICAL OBJECT it was given (identity and type) - whatever the key held before
+# --------------------------------------------------------------------------
+
+_MISSING = object()
+
+
+def _relation(cur, v):
+    """How the value passed to save relates to what the key held just before the call."""
+    if cur is _MISSING:
+        return 'key-was-absent'
+    if cur is v:
+        return 'identical'
+    try:
+        eq = bool(cur == v)
+    except Exception:     # noqa
+        eq = False
+    if not eq:
+        return 'unequal'
+    return 'equal-distinct-object-same-type' if type(cur) is type(v) else 'equal-other-type'
+
+
+def identity_checked_save(f, context, namespace, findings, log=None):
+    """Instrumentation from outside: the `save` function `get_save(context, namespace)` made, wrapped so that right
+    after every successful call the monitor (written from the property text: "...rebinds a context key ... what a py
+    block passes explicitly to save(...)") checks by id() and type() that each keyword key holds THE object passed
+    and each positional name THE object the block's namespace binds."""
+    def save(*args, **kwargs):
+        before = {}
+        for k in list(args) + list(kwargs):
+            if isinstance(k, str):
+                before[k] = dict.get(context, k, _MISSING)
+        f(*args, **kwargs)
+        want = {}
+        for n in args:
+            if isinstance(n, str) and n in namespace:
+                want[n] = namespace[n]
+        want.update(kwargs)
+        if log is not None:
+            log.append(sorted(want))
+        for k, v in want.items():
+            got = dict.get(context, k, _MISSING)
+            if got is not v:
+                rel = _relation(before.get(k, _MISSING), v)
+                findings.append((
+                    f"save(...) was given {type(v).__name__} object {v!r:.80} for key {k!r} "
+                    f"(the key held {'nothing' if before.get(k, _MISSING) is _MISSING else repr(before[k])[:80]} "
+                    f"of type {type(before.get(k)).__name__ if before.get(k, _MISSING) is not _MISSING else '-'}): afterwards "
+                    f"context[{k!r}] is {'missing' if got is _MISSING else 'not that object (type ' + type(got).__name__ + ')'}"
+                    " - an explicit save is not carried out",
+                    {'site': 'py.get_save', 'monitor': 'save-binds-the-identical-object', 'relation': rel,
+                     'form': 'keyword' if k in kwargs else 'name'},
+                    {'key': k, 'passed_type': type(v).__name__,
+                     'context_type': None if got is _MISSING else type(got).__name__, 'relation': rel}))
+                break
+    save.__qualname__ = 'get_save.<locals>.save'
+    return save
+
+
+def tdump(v, seen, depth=0):
+    """Type-sensitive dump: type names everywhere, mutable containers numbered by first appearance."""
+    if depth > 8:
+        return ['deep']
+    t = type(v).__name__
+    if isinstance(v, (list, dict, set, bytearray)):
+        if id(v) in seen:
+            return [t, 'seen', seen[id(v)]]
+        seen[id(v)] = len(seen)
+        if isinstance(v, dict):
+            return [t, seen[id(v)], [[tdump(k, seen, depth + 1), tdump(x, seen, depth + 1)] for k, x in v.items()]]
+        if isinstance(v, (set, bytearray)):
+            return [t, seen[id(v)], repr(sorted(v, key=repr))]
+        return [t, seen[id(v)], [tdump(x, seen, depth + 1) for x in v]]
+    if isinstance(v, tuple):
+        return [t, [tdump(x, seen, depth + 1) for x in v]]
+    if isinstance(v, types.FunctionType):
+        return ['function']
+    return [t, repr(v)]
+
+
+# (source of the value the key holds before, source of the value saved (K = the key's current value), in-place
+#  change of the saved object afterwards or None)
+SAVEID_PAIRS = [
+    ('[1, 2]', 'list(K)', 'T.append(3)'), ("{'p': 1}", 'dict(K)', "T['z'] = 9"), ('[[1], 2]', 'list(K)', 'T[0] = 7'),
+    ('{1, 2}', 'set(K)', 'T.add(3)'), ('[]', '[]', 'T.append(0)'), ('{}', '{}', "T['k'] = K"),
+    ('[1, 2]', 'K', 'T.append(3)'), ('[1, 2]', 'K + []', 'T.insert(0, 0)'), ('(1, [2])', '(1, [2])', 'T[1].append(5)'),
+    ("{'p': [1]}", "__import__('copy').deepcopy(K)", "T['p'].append(2)"),
+    ("{'p': 1}", "__import__('collections').OrderedDict(K)", "T['q'] = 2"),
+    ('bytearray(b"ab")', 'bytes(K)', None), ('b"ab"', 'bytearray(K)', 'T.append(99)'),
+    ('frozenset({1})', '{1}', 'T.add(2)'), ('{1}', 'frozenset(K)', None),
+    ('1', '1.0', None), ('1.0', '1', None), ('1', 'True', None), ('True', '1', None), ('True', '1.0', None),
+    ('0', 'False', None), ('False', '0', None), ('0', '0.0', None), ('0.0', '-0.0', None), ('False', '0.0', None),
+    ('0', '0j', None), ('2**70', 'float(2**70)', None), ('1', "__import__('fractions').Fraction(1)", None),
+    ('1', "__import__('decimal').Decimal(1)", None),
+    ("''", 'str()', None), ("'ab'", "''.join(['a', 'b'])", None), ('()', 'tuple([])', None),
+    ('(1, 2)', 'tuple([1, 2])', None), ('None', 'None', None), ("float('nan')", "float('nan')", None),
+    ("float('nan')", 'K', None), ('[float("nan")]', 'list(K)', 'T.append(1)'),
+    ('0', "''", None), ('[]', '()', None), ('0', 'None', None), ("''", '[]', 'T.append(1)'), ('1', '2', None),
+    ('[1]', '[1, 2]', 'T.append(3)'), ('range(3)', 'range(0, 3)', None), ('range(0)', 'range(5, 5)', None),
+]
+SAVEID_FORMS = ['kw', 'name', 'helper', 'twice', 'dictsplat', 'later']
+
+
+def saveid_block(key, pair, form):
+    cur, saved, mut = pair
+    saved = saved.replace('K', key)
+    mut = mut.replace('T', 't').replace('K', key) if mut else 'pass'
+    if form == 'kw':
+        return f't = {saved}\nsave({key}=t, holder=t)\n{mut}\n'
+    if form == 'name':
+        return f'old = {key}\n{key} = {saved}\nt = {key}\nsave({key!r})\nsave(holder=t)\n{mut}\n'
+    if form == 'helper':
+        return f't = {saved}\n\ndef put(v):\n    save({key}=v)\n\nput(t)\nsave(holder=t)\n{mut}\n'
+    if form == 'twice':
+        return f't = {saved}\nsave({key}={key})\nsave({key}=t)\nsave({key}=t, holder=t)\n{mut}\n'
+    if form == 'dictsplat':
+        return f't = {saved}\nsave(**{{{key!r}: t, "holder": t}})\n{mut}\n'
+    return f't = {saved}\nsave("save", "t")\n'       # 'later': the kept save function is called after the block
+
+
+def saveid_cases(rng, n_random):
+    out = []
+    keys = ['acc', 'n', 'flag']
+    i = 0
+    for pair in SAVEID_PAIRS:                 # directed: every pair, forms in rotation; every form on the first pairs
+        forms = SAVEID_FORMS if i < 4 else [SAVEID_FORMS[i % len(SAVEID_FORMS)], 'kw']
+        for form in dict.fromkeys(forms):
+            out.append({'kind': 'impl-only-saveid', 'method': 'save-identity:' + form, 'key': keys[i % 3],
+                        'pair': list(pair), 'form': form, 'others': [['other', SAVEID_PAIRS[(i + 5) % 20][0]]],
+                        'alias': i % 4 == 1})
+        i += 1
+    for _ in range(n_random):
+        pair = rng.choice(SAVEID_PAIRS)
+        if rng.random() < 0.3:                # any two sources against each other
+            pair = (rng.choice(SAVEID_PAIRS)[0], rng.choice(SAVEID_PAIRS)[0], None)
+        form = rng.choice(SAVEID_FORMS)
+        out.append({'kind': 'impl-only-saveid', 'method': 'save-identity:' + form, 'key': rng.choice(keys),
+                    'pair': list(pair), 'form': form,
+                    'others': [[k, rng.choice(SAVEID_PAIRS)[0]] for k in rng.sample(['other', 'x', 'y'], rng.choice([0, 1, 2]))],
+                    'alias': rng.random() < 0.25})
+    return out
+
+
+def run_saveid(case):
+    """A real py step whose block saves, for a key the context already has, a value built from the table above; the
+    identity monitor M12 on every save call; then type-sensitive reads through `!py` and the comparison of the
+    whole context (types, aliasing, contents after the in-place change) with what plain Python exec gives."""
+    from pypyr.context import Context
+    from pypyr.dsl import PyString
+    import pypyr.steps.py as pystep
+    key, pair, form = case['key'], tuple(case['pair']), case['form']
+    findings = []
+
+    def world():
+        d = {key: eval(pair[0], {})}
+        for k, srcv in case['others']:
+            d[k] = eval(srcv, {})
+        if case.get('alias'):
+            d['same'] = d[key]
+        return d
+    block = saveid_block(key, pair, form)
+    context = Context(world())
+    context['py'] = block
+    sig = {'site': 'py.get_save', 'monitor': 'save-then-read-vs-plain-exec', 'form': form}
+    # plain Python on an independent world
+    ctx2 = world()
+    g = dict(ctx2)
+    g['__builtins__'] = builtins.__dict__
+
+    def psave(*args, **kwargs):
+        d = {}
+        for a in args:
+            d[a] = g[a]
+        d.update(**kwargs)
+        ctx2.update(d)
+    g['save'] = psave
+    try:
+        exec(block, g)
+        pres = 'ok'
+    except Exception as e:     # noqa
+        pres = err_name(e)
+    orig_get_save = pystep.get_save
+    box = []
+
+    def spy(c, ns):
+        f = orig_get_save(c, ns)
+        w = identity_checked_save(f, c, ns, findings)
+        box.append((w, ns))
+        return w
+    pystep.get_save = spy
+    try:
+        pystep.run_step(context)
+        res = 'ok'
+    except Exception as e:     # noqa
+        res = err_name(e)
+    finally:
+        pystep.get_save = orig_get_save
+    del context['py']
+    if form == 'later' and res == 'ok' and box:
+        # the kept function, called when the block is over: from a !py expression and through the reference
+        for k2, ctxd, caller in ((key, context, None), (key, ctx2, psave)):
+            t = ctxd.get('t')
+            try:
+                if caller is None:
+                    PyString(f'save({key}=t, holder=t)').get_value(context)
+                else:
+                    caller(**{key: t, 'holder': t})
+            except Exception as e:     # noqa
+                res = res if caller else err_name(e)
+        for d in (context, ctx2):
+            d.pop('save', None)
+            mut = pair[2]
+            if mut:
+                try:
+                    exec(mut.replace('T', 't').replace('K', key), {'t': d['t'], key: d[key]})
+                except Exception:     # noqa
+                    pass
+    if findings:
+        return ({'ok': True} if res == 'ok' else {'err': res}), findings
+    reads = {}
+    for name, d in (('impl', context), ('plain', ctx2)):
+        r = []
+        for k in (key, 'holder'):
+            for q in (f'type({k}).__name__', f'repr({k})', f'{k} is holder', f'{k} is same' if case.get('alias') else '0'):
+                try:
+                    r.append(PyString(q).get_value(context) if name == 'impl' else eval(q, dict(d)))
+                except Exception as e:     # noqa
+                    r.append(err_name(e))
+        reads[name] = r
+    got = {'res': res, 'ctx': [[k, tdump(v, s)] for s in [{}] for k, v in dict.items(context)], 'reads': reads['impl']}
+    exp = {'res': pres, 'ctx': [[k, tdump(v, s)] for s in [{}] for k, v in ctx2.items()], 'reads': reads['plain']}
+    if got != exp:
+        bad = [k for (k, a), (k2, b) in zip(got['ctx'], exp['ctx']) if a != b or k != k2]
+        findings.append((
+            f"py block {block!r} on context {{{key!r}: {pair[0]}}}: after the step (and the in-place change of the saved "
+            f"object) the context / the type-sensitive reads type({key}).__name__, repr({key}), {key} is holder differ from "
+            f"plain Python exec with save() copying back: keys {bad[:4]}, reads {got['reads']} vs {exp['reads']}",
+            dict(sig, effect='outcome' if got['res'] != exp['res'] else ('reads' if got['reads'] != exp['reads'] else 'context-after')),
+            {'impl': got, 'plain': exp}))
+    return {'ok': True} if res == 'ok' else {'err': res}, findings
 
 
 def expect_map(expect, before_map, context):
